@@ -50,7 +50,11 @@ class VirtualFile(object):
 
         try:
             cassette_file = CassetteFile(buffer=self.source_file.get_buffer())
-            return cassette_file.list_files(), VirtualFileType.CASSETTE
+            coco_files = cassette_file.list_files()
+            # Bytes that hold no cassette file at all are not a cassette image (an empty
+            # host file is what a cassette image without files looks like)
+            if coco_files or not self.source_file.get_buffer():
+                return coco_files, VirtualFileType.CASSETTE
         except VirtualFileValidationError as error:
             pass
 
